@@ -200,10 +200,10 @@ Qed.
 (* ------------------------------------------------------------------ refusal *)
 Lemma stat_refuses :
   forall fx st w r cls nt,
-    find_wop (s_wops st) (wo_op w) = Some w -> Cluster.Model.k_kind r = K_StatBlob -> cls <> c14_ClassREPLICATED ->
+    find_wop (s_wops st) (wo_op w) = Some w -> wo_phase w = 1 -> Cluster.Model.k_kind r = K_StatBlob -> cls <> c14_ClassREPLICATED ->
     cli_reply fx st (wo_op w) r [cl_NoError; nt; cls] None = finish_w st w 0 c14_ErrReadOnlyStorageClass.
 Proof.
-  intros fx st w r cls nt Hf Hk Hc. unfold cli_reply. rewrite Hf. rewrite Hk.
+  intros fx st w r cls nt Hf Hp Hk Hc. unfold cli_reply. rewrite Hf. rewrite Hk. rewrite Hp.
   cbn [hd nth]. rewrite Z.eqb_refl. rewrite Z.eqb_refl. cbn [negb].
   replace (cls =? c14_ClassREPLICATED) with false; [reflexivity|].
   symmetry. apply Z.eqb_neq. exact Hc.
